@@ -16,6 +16,7 @@ struct JobState {
   int submitter = 0;     // -1: submitted from inside job `parent`
   int parent = -1;
   bool lambda = false;
+  bool stale_next = false;  // the job arrives with a non-null `next` left over from another intrusive container (as shared-state callbacks and mutex waiters do)
   int child = -1;        // job submitted from inside this one
   int body_points = 0;
   std::uint64_t submit_invoke = 0, submit_return = 0;
@@ -61,6 +62,7 @@ class Case final : public sim::CaseBase {
         JobState j;
         j.submitter = s;
         j.lambda = g.Flip();
+        j.stale_next = !j.lambda && g.Draw(3) == 0;
         j.body_points = static_cast<int>(g.Draw(3));
         const bool nested = g.Draw(4) == 3;
         jobs.push_back(j);
@@ -94,7 +96,7 @@ class Case final : public sim::CaseBase {
       } else {
         j.KV("from_inside_job", job.parent);
       }
-      j.KV("kind", job.lambda ? "Submit(pool, lambda)" : "pool.Submit(job)").End();
+      j.KV("kind", job.lambda ? "Submit(pool, lambda)" : job.stale_next ? "pool.Submit(job whose next still points into another list)" : "pool.Submit(job)").End();
     }
     j.EndArr();
     j.KV("submit_after_wait", late_submit);
@@ -111,7 +113,12 @@ class Case final : public sim::CaseBase {
         n.c->OnCall(n.idx);
       });
     } else {
-      pool->Submit((*tjobs)[static_cast<std::size_t>(idx)]);
+      auto& tj = (*tjobs)[static_cast<std::size_t>(idx)];
+      if (j.stale_next) {
+        SIM_PROBE("job_submitted_with_stale_next");
+        tj.next = &decoy;
+      }
+      pool->Submit(tj);
     }
     jobs[static_cast<std::size_t>(idx)].submit_return = sim::Seq();
   }
@@ -190,6 +197,9 @@ class Case final : public sim::CaseBase {
       tj[i].idx = static_cast<int>(i);
     }
     tjobs = &tj;
+    decoy.c = this;
+    decoy.idx = -1;
+    decoy.next = nullptr;
     pool_ptr = &tp;
     yaclib_std::thread stopper;
     if (stop_kind != kNoStop) {
@@ -345,15 +355,24 @@ class Case final : public sim::CaseBase {
   std::vector<int> start_order;
   yaclib::FairThreadPool* pool = nullptr;
   std::vector<TJob>* tjobs = nullptr;
+  TJob decoy;  // never submitted
   yaclib::FairThreadPool* pool_ptr = nullptr;
   std::uint64_t stop_invoke = 0, stop_return = 0, final_softstop_invoke = 0, wait_returned = 0;
   int running = 0, max_running = 0;
 };
 
 void TJob::Call() noexcept {
+  if (idx < 0) {
+    sim::Fail("JOB_NEVER_SUBMITTED", "the pool called a job that was never submitted to it (it followed the stale `next` of a submitted job)");
+    return;
+  }
   c->OnCall(idx);
 }
 void TJob::Drop() noexcept {
+  if (idx < 0) {
+    sim::Fail("JOB_NEVER_SUBMITTED", "the pool dropped a job that was never submitted to it (it followed the stale `next` of a submitted job)");
+    return;
+  }
   c->OnDrop(idx);
 }
 Notifier::~Notifier() {
@@ -365,5 +384,5 @@ Notifier::~Notifier() {
 }  // namespace
 
 SIM_HARNESS("C08", "c08_pool", Case,
-            "JOB_LOST JOB_FINISHED_TWICE DROP_WITHOUT_STOP ACCEPTED_JOB_DROPPED SOFTSTOP_STOPPED_BUSY_POOL RAN_AFTER_WAIT WRONG_ORDER LATE_SUBMIT_NOT_DROPPED "
+            "JOB_LOST JOB_FINISHED_TWICE JOB_NEVER_SUBMITTED DROP_WITHOUT_STOP ACCEPTED_JOB_DROPPED SOFTSTOP_STOPPED_BUSY_POOL RAN_AFTER_WAIT WRONG_ORDER LATE_SUBMIT_NOT_DROPPED "
             "LEAK LEAK_OBJECT DEADLOCK NO_PROGRESS CRASH:*")
